@@ -83,7 +83,7 @@ def make_body(base, mode, first_kind, nacts, size1, size2, want, restore=True):
         applied, out = F.run_bundle_oracles(d, uas, want)
       applied_any = applied
       for pid, msg in out:
-        viol.append({"pid": pid, "msg": msg, "bundles": [uas]})
+        viol.append({"pid": pid, "msg": msg, "bundles": [uas], "gbf": F.summary_groupby_formula(d.e)})
       return {"nontrivial": applied_any, "violations": viol, "sample": {"mode": mode, "bundle": uas, "applied": applied}}
     # mode == "seq": each action its own bundle; then undo the whole history in reverse
     if set(want) & set(INV):
@@ -93,7 +93,7 @@ def make_body(base, mode, first_kind, nacts, size1, size2, want, restore=True):
         applied, out = run_invariants(d, [ua], want)
         applied_any = applied_any or applied
         for pid, msg in out:
-          viol.append({"pid": pid, "msg": "after %s: %s" % (ua[0], msg), "bundles": [[u] for u in uas]})
+          viol.append({"pid": pid, "msg": "after %s: %s" % (ua[0], msg), "bundles": [[u] for u in uas], "gbf": F.summary_groupby_formula(d.e)})
       return {"nontrivial": applied_any, "violations": viol,
               "sample": {"mode": mode, "bundles": [[u] for u in uas], "applied": applied_any}}
     s_init = F.snap(d.e)
